@@ -1,4 +1,6 @@
 """C06 - server subscription records are truthful; acknowledged subscriptions are held."""
+import random
+
 from .. import scen, stackprop
 
 CODES = {1: "server listener notifications do not alternate subscribed/unsubscribed (or a rejected subscription was reported unsubscribed)",
@@ -65,13 +67,16 @@ def run(ctx):
     quick = ctx.tier == "quick"
     ctx.rule = ("timed histories of Subscribe (TTL 1,2,3 s, infinite) / StopSubscribe / reboot evidence (alone and with Subscribes in one datagram) / "
                 "listener accept-reject / service stop-start / connection loss / FindService, 3 subscribers x 1-3 instances x eventgroups x counters {0,1,15} x "
-                "0-2 endpoints x extra options, times on deadlines, +-1 tick, anywhere, both tie orders; complete traces compared with the model, "
+                "0-2 endpoints x extra options, times on deadlines, +-1 tick, anywhere, both tie orders; Subscribe and StopSubscribe for ONE subscription in one "
+                "message (both orders, on and around the deadline of the live subscription); complete traces compared with the model, "
                 "implementation trace judged by check_C06; non-trivial = distinct scenario producing at least one event")
     ctx.assumptions = ["the server listener's decision is a function of the eventgroup id (scenario input)"]
     n = 300 if quick else 12000
     scs = stackprop.corpus_scenarios("C06") + [directed_renewal(r) if k % 10 == 9 else directed_same_host(r) if k % 10 == 4 else scen.server_scenario(r) for k in range(n)]
     if not quick:
         scs += [scen.server_scenario(r, small=True, length=r.randint(1, 5)) for _ in range(3000)]
+    r2 = random.Random(ctx.seed * 7919 + 6)       # a stream of its own: the scenarios above stay what they were
+    scs += [scen.pair_in_one_message(r2) for _ in range(40 if quick else 1500)]
     stackprop.run_scenarios(ctx, scs, 3006, CODES, what="server subscriptions")
 
 
